@@ -5,11 +5,15 @@ tier=${1:-quick}
 cd /verif
 for d in seeded/*/; do
   id=$(basename $d); prop=${id%%-*}
+  [ "$id" = "dropped" ] && continue
   [ "$id" = "C14-f" ] && prop=C15   # only concurrent renders show it
   [ "$id" = "C09-g" ] && prop=C15
   [ "$id" = "C02-h" ] && prop=C04   # a scoping fault
   [ "$id" = "C09-h" ] && prop=C13   # a wrong line inside the template
   [ "$id" = "C07-g" ] && prop=C20   # needs a registered custom function
+  [ "$id" = "C03-l" ] && prop=C16   # data reused and changed in place between calls
+  [ "$id" = "C04-l" ] && prop=C16
+  [ "$id" = "C10-l" ] && prop=C16   # more than 64 distinct large sources in one process
   out=$(tools/try_seeded.sh $id $prop $tier 2>&1)
   rc=$(echo "$out" | grep -o "exit=[0-9]*" | tail -1)
   note=""
